@@ -14,6 +14,8 @@ Definition operand (s : mstate) (p : param) : option value :=
   | PInt z => Some (VInt z)
   | PLoopVar k => Some (get_loopvar (m_frames s) k)
   | PStr x => Some (get_var (m_globals s) (m_frames s) x)
+  | PMode m => Some (VMode m)
+  | PReg rg => if register_eqb rg R_PC then None else rf_get (m_regs s) rg
   | _ => None
   end.
 
@@ -21,10 +23,15 @@ Lemma push_step im s p a : fetch im (m_pc s) = Some (push_of p) -> operand s p =
   esteps 1 im s = Some (advance (with_stack s (a :: m_stack s)), []).
 Proof.
   intros Hf Ho Hn. apply (estep1 im s _ _ _ Hf).
-  destruct p as [|z|fl|bb|x|rg|kk|od|md|opr|jc|io|so|tm|oc|ot]; cbn [operand] in Ho; try discriminate; injection Ho as <-; cbn [push_of Machine.exec i_op i_p0 I1 param_value read_name bind lift].
-  all: try reflexivity.
-  - destruct (get_var (m_globals s) (m_frames s) x); try reflexivity; contradiction.
-  - destruct (get_loopvar (m_frames s) kk); try reflexivity; contradiction.
+  destruct p as [|z|fl|bb|x|rg|kk|od|md|opr|jc|io|so|tm|oc|ot]; cbn [operand] in Ho; try discriminate.
+  - injection Ho as <-. reflexivity.
+  - injection Ho as <-. cbn [push_of Machine.exec i_op i_p0 I1 param_value read_name bind lift].
+    destruct (get_var (m_globals s) (m_frames s) x); try reflexivity; contradiction.
+  - destruct (register_eqb rg R_PC) eqn:Er; [discriminate|]. cbn [push_of Machine.exec i_op i_p0 I1].
+    rewrite (get_reg_not_pc s rg Er). unfold rg_vm. rewrite Ho. cbn [bind lift]. destruct a; try reflexivity; contradiction.
+  - injection Ho as <-. cbn [push_of Machine.exec i_op i_p0 I1 param_value read_name bind lift].
+    destruct (get_loopvar (m_frames s) kk); try reflexivity; contradiction.
+  - injection Ho as <-. reflexivity.
 Qed.
 
 Lemma binop_step im s op a b k r : fetch im (m_pc s) = Some (I1 OC_OP (POperator op)) -> is_unary op = false ->
@@ -61,6 +68,28 @@ Proof.
   intros Hf Hfr. apply (estep1 im s _ _ _ Hf). cbn [Machine.exec i_op i_p0 i_p1 I2 param_value put_dest]. rewrite Hfr. cbn [put_loopvar bind lift]. f_equal.
   unfold with_lv, advance, with_pc, with_frames, with_vars. cbn [m_pc m_regs m_globals m_frames m_stack m_unnamed m_world]. rewrite Hfr. reflexivity.
 Qed.
+
+(* the same state at another program counter and with another stack: the shape of every state inside such a group *)
+Definition at_pc (s : mstate) (st : list value) (pc : Z) : mstate :=
+  mkM pc (m_regs s) (m_globals s) (m_frames s) st (m_unnamed s) (m_world s).
+
+Lemma operand_at_pc s st pc p : register_eqb (match p with PReg rg => rg | _ => R_RESULT end) R_PC = false -> operand (at_pc s st pc) p = operand s p.
+Proof. destruct p; reflexivity. Qed.
+
+Lemma push_at im s st pc p a : fetch im pc = Some (push_of p) -> operand s p = Some a -> a <> VNone ->
+  esteps 1 im (at_pc s st pc) = Some (at_pc s (a :: st) (pc + 1), []).
+Proof.
+  intros Hf Ho Hn. assert (Ho' : operand (at_pc s st pc) p = Some a) by (destruct p; exact Ho).
+  exact (push_step im (at_pc s st pc) p a Hf Ho' Hn).
+Qed.
+
+Lemma binop_at im s st pc op a b r : fetch im pc = Some (I1 OC_OP (POperator op)) -> is_unary op = false -> eval_binop op a b = Ok r ->
+  esteps 1 im (at_pc s (b :: a :: st) pc) = Some (at_pc s (r :: st) (pc + 1), []).
+Proof. intros Hf Hu He. exact (binop_step im (at_pc s (b :: a :: st) pc) op a b st r Hf Hu eq_refl He). Qed.
+
+Lemma pop_lv_at im s st pc kk v lv d rr : fetch im pc = Some (I1 OC_POP (PLoopVar kk)) -> m_frames s = FLoop lv d :: rr ->
+  esteps 1 im (at_pc s (v :: st) pc) = Some (with_lv (at_pc s st pc) kk v 1, []).
+Proof. intros Hf Hfr. exact (pop_lv_step im (at_pc s (v :: st) pc) kk v st lv d rr Hf eq_refl Hfr). Qed.
 
 (* push p1; push p2; OP op; POP loop variable *)
 Lemma lv_group im s p1 p2 op kk a b r lv d rr :
